@@ -765,5 +765,83 @@ def main():
         except SystemExit as e:
             print('FAILED', name, e)
 
+# ---- rules added after the second seeded round
+brk('c12_bytes_greedy_trim', 'C12', PAR, '''        let content = &body[quotes..body.len() - quotes];''', '''        let content = body.trim_matches(if body.starts_with('\\'') { '\\'' } else { '"' });
+        let _ = quotes;''')
+brk('c14_has_via_member', 'C14', OBJ, '''                            for key in map.map.deref().keys() {
+                                if key.to_string().eq(&select.field) {
+                                    return Ok(Value::Bool(true));
+                                }
+                            }
+                            Ok(Value::Bool(false))''', '''                            let _ = map;
+                            Ok(Value::Bool(left.clone().member(&select.field, ctx).is_ok()))''')
+neu('n_has_via_map_get', 'C14 C02 C07', OBJ, '''                            for key in map.map.deref().keys() {
+                                if key.to_string().eq(&select.field) {
+                                    return Ok(Value::Bool(true));
+                                }
+                            }
+                            Ok(Value::Bool(false))''', '''                            Ok(Value::Bool(
+                                map.get(&Key::String(Arc::new(select.field.clone()))).is_some(),
+                            ))''')
+brk('c16_sub_via_epoch_nanos', 'C16', OBJ, '''            (Value::Timestamp(l), Value::Timestamp(r)) => Value::Duration(l - r).into(),''', '''            (Value::Timestamp(l), Value::Timestamp(r)) => Value::Duration(chrono::Duration::nanoseconds(
+                l.timestamp_nanos_opt()
+                    .unwrap_or_default()
+                    .saturating_sub(r.timestamp_nanos_opt().unwrap_or_default()),
+            ))
+            .into(),''')
+neu('n_sub_signed_duration_since', 'C16 C15 C02', OBJ, '''            (Value::Timestamp(l), Value::Timestamp(r)) => Value::Duration(l - r).into(),''', '''            (Value::Timestamp(l), Value::Timestamp(r)) => {
+                Value::Duration(l.signed_duration_since(r)).into()
+            }''')
+brk('c17_timestamp_as_utc', 'C17', SERF, '''        Ok(v.parse::<chrono::DateTime<FixedOffset>>()
+            .map_err(|e| SerializationError::SerdeError(e.to_string()))?
+            .into())''', '''        Ok(v.parse::<chrono::DateTime<chrono::Utc>>()
+            .map_err(|e| SerializationError::SerdeError(e.to_string()))?
+            .fixed_offset()
+            .into())''')
+brk('c16_string_in_utc', 'C16', FUN, '''        Value::Timestamp(t) => Value::String(t.to_rfc3339().into()),''', '''        Value::Timestamp(t) => Value::String(t.to_utc().to_rfc3339().into()),''')
+brk('c09_float_total_cmp', 'C09', OBJ, '''            (Value::Float(a), Value::Float(b)) => a.partial_cmp(b),''', '''            (Value::Float(a), Value::Float(b)) if a.is_nan() || b.is_nan() => None,
+            (Value::Float(a), Value::Float(b)) => Some(a.total_cmp(b)),''')
+brk('c09_float_eq_bits', 'C09', OBJ, '''            (Value::Float(a), Value::Float(b)) => a == b,''', '''            (Value::Float(a), Value::Float(b)) => a.to_bits() == b.to_bits(),''')
+brk('c09_int_cmp_swapped', 'C09', OBJ, '''            (Value::Int(a), Value::Int(b)) => Some(a.cmp(b)),''', '''            (Value::Int(a), Value::Int(b)) => Some(b.cmp(a)),''')
+neu('n_float_cmp_nan_explicit', 'C09 C02', OBJ, '''            (Value::Float(a), Value::Float(b)) => a.partial_cmp(b),''', '''            (Value::Float(a), Value::Float(b)) if a.is_nan() || b.is_nan() => None,
+            (Value::Float(a), Value::Float(b)) => a.partial_cmp(b),''')
+brk('c15_sum_in_i64', 'C15', DURF, '''        .try_fold(Duration::zero(), |acc, next| acc.checked_add(next))
+        .ok_or(nom::Err::Failure(Error::new(i, ErrorKind::TooLarge)))?;''', '''        .try_fold(0i64, |acc, next| acc.checked_add(next.num_nanoseconds()?))
+        .map(Duration::nanoseconds)
+        .ok_or(nom::Err::Failure(Error::new(i, ErrorKind::TooLarge)))?;''')
+brk('c04_relation_rewritten', 'C04', PAR, '''                            Some(op) => {
+                                self.global_call_or_macro(op_id, op.to_string(), vec![lhs, rhs])
+                            }
+                        }
+                    } else {
+                        self.report_error::<ParseError, _>(
+                            ctx.start().deref(),
+                            None,
+                            format!("Incomplete `RelationContext`''', '''                            Some(operators::NOT_EQUALS) => {
+                                let eq = self.global_call_or_macro(
+                                    op_id,
+                                    operators::EQUALS.to_string(),
+                                    vec![lhs, rhs],
+                                );
+                                self.helper.next_expr_for(
+                                    op_id,
+                                    Expr::Call(CallExpr {
+                                        func_name: operators::LOGICAL_NOT.to_string(),
+                                        target: None,
+                                        args: vec![eq],
+                                    }),
+                                )
+                            }
+                            Some(op) => {
+                                self.global_call_or_macro(op_id, op.to_string(), vec![lhs, rhs])
+                            }
+                        }
+                    } else {
+                        self.report_error::<ParseError, _>(
+                            ctx.start().deref(),
+                            None,
+                            format!("Incomplete `RelationContext`''')
+
+
 if __name__ == '__main__':
     main()
